@@ -215,6 +215,18 @@ def run(ctx):
         if p.startswith(DEC) and ctx.F.bodies[p]['kind'] in ('Fn', 'AssocFn', 'Closure'):
             check_casts(ctx, P.B(p), 'C03.5-cast', include_float=False, reviewed=REVIEWED)
 
+    # ---------------- the second decoder ------------------------------------------------------------------------------------
+    # decode_borrowed is a decoder of the same format: per common tag it must read what the owned parser reads (layout, guards,
+    # variant, atom text) - the twin rules of C13 re-run here, so a change to a *_borrowed parser is reported under C03 as well
+    ctx.rule('C03.8-zero-copy-decoder', 'the zero-copy decoder reads every tag it accepts exactly as the owned decoder (whose layouts are checked against the format above): twin rules C13.2-* re-run here', floor=60)
+    from ..order import SubCtx as _Sub
+    from . import c13 as _c13
+    _c13.run(_Sub(ctx, 'C03.8-zero-copy-decoder', 'c13', allow=('C13.2-',)))
+    # big-integer digits are little-endian wherever they are turned into machine integers (NEW_FUN_EXT OldIndex/OldUniq as bignum)
+    ctx.rule('C03.2-bigint-digit-order', 'no number changes value: every conversion between big-integer digits and machine integers treats the first digit as the least significant', floor=5)
+    from ..families import check_bigint_endianness
+    check_bigint_endianness(ctx, P, 'C03.2-bigint-digit-order')
+
 
 def read_order(PB):
     """block of every read primitive / sub-parser call in the order they occur on success paths"""
